@@ -322,7 +322,35 @@ func genB(tier string) []proto.RTItem {
 			items = append(items, proto.RTItem{Scn: r, Class: fmt.Sprintf("wire/counts/%s/runs=%d,e2e=%d", map[bool]string{false: "RunTraceroute", true: "http"}[http], c[0], c[1])})
 		}
 	}
+	// every run and every probe of a large request fails: each individual failure is exposed, through both entry points
+	for _, http := range []bool{false, true} {
+		for _, c := range [][2]int{{3, 20}, {2, 50}} {
+			r := proto.RTScn{Hostname: "203.0.113.77", Protocol: "udp", MinTTL: 1, MaxTTL: 4, DelayMs: 10, TimeoutMs: 100, Queries: c[0], E2e: c[1], Dest: 3, IPIDBase: 1500, EchoBase: 150, HTTP: http,
+				Faults: []simnet.Fault{{Op: "NewSink", K: 0, Class: "fatal"}}, Bound: -1}
+			items = append(items, proto.RTItem{Scn: r, Class: fmt.Sprintf("wire/every-call-fails/%s/runs=%d,e2e=%d", map[bool]string{false: "RunTraceroute", true: "http"}[http], c[0], c[1])})
+		}
+	}
 	return items
+}
+
+// leaves counts the leaf errors of an error tree that are the injected fault.
+func leaves(err error) int {
+	switch x := err.(type) {
+	case interface{ Unwrap() []error }:
+		n := 0
+		for _, e := range x.Unwrap() {
+			n += leaves(e)
+		}
+		return n
+	case interface{ Unwrap() error }:
+		if u := x.Unwrap(); u != nil {
+			return leaves(u)
+		}
+	}
+	if err == simnet.ErrInjected {
+		return 1
+	}
+	return 0
 }
 
 func checkB(it *proto.RTItem, r *proto.RTResult) []proto.Issue {
@@ -330,11 +358,25 @@ func checkB(it *proto.RTItem, r *proto.RTResult) []proto.Issue {
 		if r.Err == nil {
 			return []proto.Issue{{Key: "failure-swallowed", Detail: fmt.Sprintf("fault at %v, success returned: %s", r.Net.InjectedAt, r.Summary())}}
 		}
-		if !errors.Is(r.Err, simnet.ErrInjected) {
+		if it.Scn.HTTP {
+			if !strings.Contains(string(r.Body), simnet.ErrInjected.Error()) {
+				return []proto.Issue{{Key: "failure-not-exposed", Detail: r.Err.Error()}}
+			}
+		} else if !errors.Is(r.Err, simnet.ErrInjected) {
 			return []proto.Issue{{Key: "failure-not-exposed", Detail: r.Err.Error()}}
 		}
 		if r.Res != nil {
 			return []proto.Issue{{Key: "result-with-error", Detail: ""}}
+		}
+		if want := it.Scn.Queries + it.Scn.E2e; len(it.Scn.Faults) > 0 && it.Scn.Faults[0].K == 0 {
+			// every run and probe failed: one exposed failure each
+			got := leaves(r.Err)
+			if it.Scn.HTTP {
+				got = strings.Count(string(r.Body), simnet.ErrInjected.Error())
+			}
+			if got < want {
+				return []proto.Issue{{Key: "individual-failures-not-all-exposed", Detail: fmt.Sprintf("%d runs and probes failed, the error exposes %d of them", want, got)}}
+			}
 		}
 		return nil
 	}
@@ -352,7 +394,7 @@ func checkB(it *proto.RTItem, r *proto.RTResult) []proto.Issue {
 // The HTTP server keeps one Traceroute (and its fetcher) for the life of the process: a request must be answered whatever
 // the public-IP lookups of earlier requests did.
 
-var provKinds = []string{"ok", "http-404", "transport-error"}
+var provKinds = []string{"ok", "http-404", "transport-error", "ok-ipv6"}
 
 type CScn struct {
 	Seq   []int `json:"provider_per_request"` // provider behaviour during request i
@@ -367,6 +409,8 @@ func (t provRT) RoundTrip(req *http.Request) (*http.Response, error) {
 	switch provKinds[*t.mode] {
 	case "ok":
 		return &http.Response{StatusCode: 200, Status: "200 OK", Body: io.NopCloser(strings.NewReader("192.0.2.44\n")), Header: http.Header{}, Request: req}, nil
+	case "ok-ipv6":
+		return &http.Response{StatusCode: 200, Status: "200 OK", Body: io.NopCloser(strings.NewReader("2001:db8::44\n")), Header: http.Header{}, Request: req}, nil
 	case "http-404":
 		return &http.Response{StatusCode: 404, Status: "404 Not Found", Body: io.NopCloser(strings.NewReader("nope")), Header: http.Header{}, Request: req}, nil
 	}
@@ -410,7 +454,7 @@ func checkC(sc *CScn, x *vsched.Exec, o *cObs) (string, string) {
 	case vsched.Horizon:
 		return "request-never-returns", fmt.Sprintf("after %d completed requests (horizon)", len(o.res))
 	}
-	known := false // a successful lookup is remembered (well within its two hours here)
+	known := "" // a successful lookup is remembered (well within its two hours here)
 	for i := range sc.Seq {
 		if o.err[i] != nil {
 			return "public-ip-failure-failed-the-request", fmt.Sprintf("request %d (provider %s): %v", i+1, provKinds[sc.Seq[i]], o.err[i])
@@ -419,13 +463,15 @@ func checkC(sc *CScn, x *vsched.Exec, o *cObs) (string, string) {
 		if len(r.Traceroute.Runs) != 1 || len(r.E2eProbe.RTTs) != 1 {
 			return "counts", fmt.Sprintf("request %d: %d runs, %d samples", i+1, len(r.Traceroute.Runs), len(r.E2eProbe.RTTs))
 		}
-		if provKinds[sc.Seq[i]] == "ok" {
-			known = true
+		if known == "" {
+			switch provKinds[sc.Seq[i]] {
+			case "ok":
+				known = "192.0.2.44"
+			case "ok-ipv6":
+				known = "2001:db8::44"
+			}
 		}
-		want := ""
-		if known {
-			want = "192.0.2.44"
-		}
+		want := known
 		if r.Source.PublicIP != want {
 			return "public-ip", fmt.Sprintf("request %d (providers so far %v): public ip %q, want %q", i+1, sc.Seq[:i+1], r.Source.PublicIP, want)
 		}
